@@ -36,6 +36,14 @@ from xdsl.traits import HasParent, IsolatedFromAbove, IsTerminator, Pure, Symbol
 from xdsl.utils.exceptions import VerifyException
 
 
+def same_operation(a: Operation, b: Operation) -> bool:
+    """
+    Two operations are the same alternative of a ChooseOp if they agree in everything but their operands:
+    `arith.cmpi slt` and `arith.cmpi sgt` are different choices
+    """
+    return a.name == b.name and a.properties == b.properties and a.attributes == b.attributes
+
+
 @irdl_op_definition
 class YieldOp(AbstractYieldOperation[Attribute]):
     """
@@ -439,9 +447,14 @@ class ChooseOp(IRDLOperation):
         # FIXME, what if operation order is swapped? i.e. rhs on lhs side and vice versa?
         data_operand_types = ChooseOp._check_operand_types(self.data_operands, operations)
         for operation in operations:
-            if operation.name not in [op.name for op in self.operations()]:
+            if not any(same_operation(operation, op) for op in self.operations()):
                 block = Block(arg_types=data_operand_types)
-                block.add_ops([op := type(operation)(*block.args), YieldOp(op)])
+                # keep the attributes (predicate of a cmpi, value of a constant, ...), connect positionally
+                op = operation.clone()
+                op.operands = block.args
+                for res in op.results:
+                    res.name_hint = None
+                block.add_ops([op, YieldOp(op)])
                 self.add_region(Region(block))
 
     def operations(self) -> Iterator[Operation]:
